@@ -42,6 +42,29 @@ def run(rep: common.Report, tier: str, seed: int, replay=None) -> int:
     from tdgl import distance
     rep.use_props(common.check_props("C20"))
     rng = random.Random(seed * 7919 + 20)
+    # areas=None (documented: "the positions are triangulated to calculate vertex areas"): the same field as with the Voronoi areas
+    # of the Delaunay triangulation handed over explicitly, in any length unit
+    from scipy import spatial as _sp
+    from tdgl.finite_volume.mesh import Mesh as _Mesh
+    for ai in range(3 if tier == "quick" else 12):
+        lu_ = ["um", "nm", "mm"][ai % 3]
+        gx, gy = np.meshgrid(np.linspace(-2, 2, 7), np.linspace(-1.5, 1.5, 6))
+        posn = np.stack([gx.ravel(), gy.ravel()], axis=1) + np.array([[rng.uniform(-0.12, 0.12), rng.uniform(-0.12, 0.12)] for _ in range(gx.size)])
+        Jn = np.array([[rng.gauss(0, 1), rng.gauss(0, 1)] for _ in range(len(posn))])
+        evn = np.array([[rng.uniform(-3, 3), rng.uniform(-3, 3), rng.choice([-1, 1]) * rng.uniform(0.4, 2.0)] for _ in range(6)])
+        casen = {"areas": "None", "length_units": lu_, "sources": len(posn)}
+        try:
+            Bn = biot_savart_2d(evn[:, 0], evn[:, 1], evn[:, 2], positions=posn, current_densities=Jn, z0=0.0, areas=None,
+                                length_units=lu_, current_units="uA", vector=True).to("tesla").magnitude
+            ar_ = _Mesh.from_triangulation(posn, _sp.Delaunay(posn).simplices).areas
+            Be = biot_savart_2d(evn[:, 0], evn[:, 1], evn[:, 2], positions=posn, current_densities=Jn, z0=0.0, areas=ar_,
+                                length_units=lu_, current_units="uA", vector=True).to("tesla").magnitude
+            if np.max(np.abs(Bn - Be)) > 1e-9 * float(np.max(np.abs(Be))):
+                rep.violation("biot_savart_2d(areas=None) differs from the field computed with the triangulation's vertex areas", casen)
+        except Exception as e:  # noqa: BLE001
+            rep.violation(f"biot_savart_2d(areas=None) raised {type(e).__name__}: {e}"[:200], casen)
+        rep.count(1)
+        rep.nontrivial(("areas-none", lu_))
     texts, refs = [], []
     ncase = 8 if tier == "quick" else 50
     for ci in range(ncase):
